@@ -386,7 +386,7 @@ def run(tier, seed):
         time.sleep(0.3)
     futs[iter_cfg] = ex.submit(_tlc, "IterMutation", cfg=iter_cfg, workers=nw, timeout=3300 if thorough else 900,
                                deadlock=False, coverage=True)
-    fb = ex.submit(core.build_many, build_specs())
+    fb = ex.submit(core.build_many, build_specs(), None, None, 2400)
     tl = {}
     for cfg, f in futs.items():
         r = f.result()
@@ -398,6 +398,11 @@ def run(tier, seed):
     phase = {"tlc_wait": round(time.time() - t0, 1)}
     builds = {b.name: b for b in fb.result()}
     ex.shutdown()
+    # a build that ran into the time limit next to TLC on a loaded machine is retried alone (a second timeout is reported)
+    late = [sp for sp in build_specs() if builds[sp.name].stage == "timeout"]
+    if late:
+        stats["builds_retried_after_timeout"] = len(late)
+        builds.update({b.name: b for b in core.build_many(late, None, None, 3600)})
     phase["build_wait"] = round(time.time() - t0, 1)
 
     # ---- vacuity guard (model side only)
